@@ -130,7 +130,12 @@ func (s *Server) serve(ctx context.Context, listener net.Listener, handler Modbu
 	simBeforeLock(&s.mu, true)
 	s.mu.Lock()
 	s.listener = l
+	alreadyShutdown := s.isShutdown.Load()
 	s.mu.Unlock()
+	if alreadyShutdown {
+		// Shutdown won the race with start of serving. There was no listener for it to close yet.
+		return ErrServerClosed
+	}
 
 	if s.OnServeFunc != nil {
 		// when listener is started with ":0" (random port) this will be helpful knowing where to connect
